@@ -795,6 +795,39 @@ def execCrashCb (st : St) (k : Nat) (name : String) : Pm (Except String (Option 
   | .op d => pure <| fin (Crash.stepCb k st d.op)
   | _ => throw s!"callback crash mirror: unsupported operation {name}"
 
+/-- C10 mirror, `Clone` fuses: a user `Clone` panics inside `clone()` (`clone_swap`) or `dst.clone_from(&q)`.  Both are
+the derived implementations (`clone_from` is `*self = source.clone()`): no crate code has touched anything when the panic
+unwinds, so the queue the caller holds afterwards is the untouched one — the queue itself for `clone_swap`, the
+destination for `clone_from`.  The harness builds that destination from a clone of the queue by popping (`pop` /
+`pop_max`) down to `keep` elements and pushing `xs`; the same is done here on the model. -/
+def execCrashCl (st : St) (name : String) : Pm (Except String (Option (Kind × Store Pr))) := do
+  if name == "clone_swap" then return .ok (some (st.kind, st.s))
+  if name != "clone_from" then throw s!"clone crash mirror: unsupported operation {name}"
+  let keep ← nat
+  let xs ← entries
+  let popOp : Op Pr := match st.kind with | .pq => .popFront | .dpq => .popBack
+  let rec popDown (fuel : Nat) (q : Q Pr) : Except String (Q Pr) :=
+    match fuel with
+    | 0 => .ok q
+    | fuel + 1 =>
+      if q.s.size > keep then
+        match step q popOp with
+        | .ok (q', _) => popDown fuel q'
+        | .error f => .error s!"model fault {showFaultSite f} while building the clone_from destination"
+      else .ok q
+  match popDown st.s.size { st with } with
+  | .error e => return .error e
+  | .ok q =>
+    let r := xs.foldl (init := (.ok q : Except String (Q Pr))) fun acc e =>
+      match acc with
+      | .error e => .error e
+      | .ok q => match step q (.push e.1 e.2) with
+        | .ok (q', _) => .ok q'
+        | .error f => .error s!"model fault {showFaultSite f} while building the clone_from destination"
+    match r with
+    | .error e => return .error e
+    | .ok q => return .ok (some (q.kind, q.s))
+
 /-- the comparisons of popping a copy of the queue empty with `op` (`pop` / `pop_min` / `pop_max`) -/
 def popAllTicks (q : Q Pr) (op : Op Pr) : Nat :=
   match (do let mut q := q; let t0 := q.s.ticks
@@ -823,11 +856,12 @@ def runLine (st : St) (lhs : List String) : Except String (St × String) :=
   | [] => .error "empty line"
   | "ref" :: rest => runLine st rest    -- `(&q).into_iter()` / `(&mut q).into_iter()`: the same iterators
   | op :: args =>
-    if (op.startsWith "!cmp" || op.startsWith "!cb") && (match args with | inner :: _ => !inner.startsWith "!" | [] => false) then
-      let isCb := op.startsWith "!cb"
-      match (op.drop (if isCb then 3 else 4)).toString.toNat?, args with
+    if (op.startsWith "!cmp" || op.startsWith "!cb" || op.startsWith "!cl") && (match args with | inner :: _ => !inner.startsWith "!" | [] => false) then
+      let isCl := op.startsWith "!cl"
+      let isCb := op.startsWith "!cb" || isCl     -- (for the comparison count: the model's own ticks, here none)
+      match (op.drop (if op.startsWith "!cmp" then 4 else 3)).toString.toNat?, args with
       | some k, inner :: rest =>
-        match ((if isCb then execCrashCb st k inner else execCrash st k inner)).run rest with
+        match ((if isCl then execCrashCl st inner else if isCb then execCrashCb st k inner else execCrash st k inner)).run rest with
         | .error e => .error e
         | .ok (r, left) =>
           if !left.isEmpty then .error s!"trailing tokens after {inner}: {left}"
@@ -837,7 +871,7 @@ def runLine (st : St) (lhs : List String) : Except String (St × String) :=
             -- the queue survives the caught panic: later lines of the case operate on the model's post-unwinding state
             -- comparison count of the interrupted call: a `!cmp<k>` fuse fires INSIDE the k-th comparison (the real counter has
             -- counted it; nothing may compare while unwinding), a `!cb<k>` fuse after the comparisons the crash model performed
-            | .ok (some (k', s')) => .ok ({ st with kind := k', s := s' }, s!"fault user | {kindName k'} {showCore s'} t {if isCb then s'.ticks - st.s.ticks else k}")
+            | .ok (some (k', s')) => .ok ({ st with kind := k', s := s' }, s!"fault user | {kindName k'} {showCore s'} t {if isCl then 0 else if isCb then s'.ticks - st.s.ticks else k}")
       | _, _ => .error s!"bad crash line {op}"
     else
       match (exec st op).run args with
